@@ -164,7 +164,14 @@ def _impl_dim(world: Any, sid: str) -> int:
     return d
 
 
-def joint_density(world: Any) -> Tuple[np.ndarray, List[str], List[int]]:
+class TooLarge(Unobservable):
+    """the joint space is larger than the harness is willing to build a dense matrix for"""
+
+
+MAX_JOINT_DIM = 2048
+
+
+def joint_density(world: Any, max_dim: Optional[int] = None) -> Tuple[np.ndarray, List[str], List[int]]:
     """Density operator of all live subsystems, canonical order, every Fock factor brought to
     ``max(model dim, implementation dim)`` by zero padding.  Each block is normalised to unit
     trace before tensoring (normalisation itself is judged by the C07 clauses, not here)."""
@@ -189,6 +196,8 @@ def joint_density(world: Any) -> Tuple[np.ndarray, List[str], List[int]]:
         if not np.isfinite(tr) or abs(tr) < 1e-12:
             raise Unobservable(f"block {b['members']} has trace {tr}")
         r = r / tr
+        if max_dim is not None and rho.shape[0] * r.shape[0] > max_dim:
+            raise TooLarge(f"joint dimension exceeds {max_dim}")
         rho = np.kron(rho, r)
         facs.extend(b["members"])
         dims.extend(bd)
